@@ -20,7 +20,7 @@ BOGUS = {'NBITS': 16, 'NPOL': 7, 'OBSNCHAN': 999, 'NANTS': 9, 'BLOCSIZE': 12344,
 
 VALUE_KINDS = [
     ('int', 7), ('negint', -12345), ('float', 2.5), ('smallfloat', 1e-05), ('str', 'abc'),
-    ('longstr', 'x' * 68), ('quoted', "'quoted  '"), ('bigint', 2**40), ('float17', 0.1 + 0.2),
+    ('longstr', 'x' * 68), ('quoted', "'quoted  '"), ('bigint', 2**40), ('float17', 0.1 + 0.2), ('str', ''),
 ]
 KEYS = ['A', 'BB', 'CCC', 'DDDD', 'EEEEE', 'FFFFFF', 'GGGGGGG', 'HHHHHHHH']
 
